@@ -95,7 +95,7 @@ func loadOrderExceptions(verif string) (map[string]string, error) {
 		if len(e.Effects) > 0 {
 			m := map[string]bool{}
 			for _, x := range e.Effects {
-				m[x] = true
+				m[effectFingerprint(x)] = true
 			}
 			excEffects[e.Key] = m
 		}
@@ -192,6 +192,31 @@ func runC10(c *core.Ctx) error {
 		}
 		return fns[i].String() < fns[j].String()
 	})
+	allRangeKeys := map[string]bool{}
+	for _, fn := range fns {
+		if !inScope(fn) {
+			continue
+		}
+		ordOf := map[string]int{}
+		for _, b := range fn.Blocks {
+			for _, in := range b.Instrs {
+				rg, ok := in.(*ssa.Range)
+				if !ok {
+					continue
+				}
+				if _, isMap := rg.X.Type().Underlying().(*types.Map); !isMap {
+					continue
+				}
+				xs := rangeExpr[rg.Pos()]
+				if xs == "" {
+					xs = "?"
+				}
+				base := fmt.Sprintf("%s:range %s", fnKeyFull(fn), xs)
+				allRangeKeys[fmt.Sprintf("%s#%d", base, ordOf[base])] = true
+				ordOf[base]++
+			}
+		}
+	}
 	for _, fn := range fns {
 		if !inScope(fn) {
 			continue
@@ -242,7 +267,28 @@ func runC10(c *core.Ctx) error {
 					r1.Pass(fmt.Sprintf("%s at %s: body effects are order-insensitive", key, c.Pos(core.InstrPos(rg))))
 					continue
 				}
-				// exceptions: the whole site, with one reason
+				// exceptions: the whole site, with one reason. A site inside a function literal whose number changed
+				// (an unrelated literal was added or removed) is matched by the entry that differs in closure numbers
+				// only, provided that entry's own site does not exist in this run.
+				if _, ok := exc[key]; !ok && closureNumRe.MatchString(key) {
+					nk := closureNumRe.ReplaceAllString(key, "$$")
+					cand := ""
+					for ek := range exc {
+						if closureNumRe.ReplaceAllString(ek, "$$") != nk || allRangeKeys[ek] {
+							continue
+						}
+						if cand != "" {
+							cand = "?"
+							break
+						}
+						cand = ek
+					}
+					if cand != "" && cand != "?" {
+						exc[key] = exc[cand]
+						excEffects[key] = excEffects[cand]
+						used[cand] = true
+					}
+				}
 				if why, ok := exc[key]; ok {
 					used[key] = true
 					var fresh []orderProblem
@@ -1973,5 +2019,9 @@ var posInText = regexp.MustCompile(`[A-Za-z0-9_/.\-]+\.go:\d+`)
 
 // effectFingerprint strips positions from a problem description.
 func effectFingerprint(what string) string {
-	return posInText.ReplaceAllString(what, "<pos>")
+	return closureNumRe.ReplaceAllString(posInText.ReplaceAllString(what, "<pos>"), "$$")
 }
+
+// closureNumRe: the ordinal of a function literal inside its parent ($3): renumbered whenever an unrelated literal is
+// added or removed, so neither site keys nor effect fingerprints may depend on it alone.
+var closureNumRe = regexp.MustCompile(`\$\d+`)
